@@ -536,8 +536,7 @@ Example TreeRows_spec_ex : 5 <= 2 ^ TreeRows 5 /\ (TreeRows 5 = 0 \/ 2 ^ (TreeRo
 Proof. vm_compute. split; [discriminate|right; reflexivity]. Qed.
 
 (** [numRoots] is the population count: the number of set bits among the 64 bit positions. *)
-Definition bitcount (n : N) (k : nat) : nat :=
-  length (filter (N.testbit n) (map N.of_nat (seq 0 k))).
+Local Notation bitcount n k := (length (filter (N.testbit n) (map N.of_nat (seq 0 k)))).
 
 Lemma length_filter_map_ext (f f' : N -> bool) (g g' : nat -> N) l :
   (forall i, f (g i) = f' (g' i)) ->
@@ -550,7 +549,7 @@ Qed.
 Lemma bitcount_double a b k :
   bitcount (2 * a + N.b2n b) (S k) = ((if b then 1 else 0) + bitcount a k)%nat.
 Proof.
-  unfold bitcount. cbn [seq map filter]. change (N.of_nat 0) with 0.
+  cbn [seq map filter]. change (N.of_nat 0) with 0.
   rewrite N.testbit_0_r. rewrite <- seq_shift, map_map.
   assert (E : length (filter (N.testbit (2 * a + N.b2n b))
                         (map (fun x => N.of_nat (S x)) (seq 0 k))) =
@@ -561,7 +560,7 @@ Qed.
 
 Lemma bitcount_0 k : bitcount 0 k = 0%nat.
 Proof.
-  unfold bitcount. induction (map N.of_nat (seq 0 k)) as [|x l IH]; [reflexivity|].
+  induction (map N.of_nat (seq 0 k)) as [|x l IH]; [reflexivity|].
   cbn [filter]. rewrite N.bits_0. assumption.
 Qed.
 
@@ -582,7 +581,7 @@ Theorem numRoots_spec n : n < 2 ^ 64 ->
   numRoots n = N.of_nat (length (filter (N.testbit n) (map N.of_nat (seq 0 64)))).
 Proof.
   intros Hn. unfold numRoots, popcount. destruct n as [|p]; [reflexivity|].
-  apply (popcount_pos_spec p 64). exact Hn.
+  exact (popcount_pos_spec p 64 Hn).
 Qed.
 
 Example numRoots_spec_ex : numRoots 7 = 3. Proof. reflexivity. Qed.
@@ -838,3 +837,273 @@ Qed.
 
 Example RootPositions_spec_ex : RootPositions 7 3 = [gpos 3 2 0; gpos 3 1 2; gpos 3 0 6].
 Proof. reflexivity. Qed.
+
+(** * 14. [removeBit]/[addBit] and [calcNextPosition]/[calcPrevPosition] *)
+
+(** remove bit [b] of [v] / insert the bit [c] at place [b] of [v], arithmetically *)
+Definition rmbit (v b : N) : N := v / 2 ^ (b + 1) * 2 ^ b + v mod 2 ^ b.
+Definition insbit (v b : N) (c : bool) : N :=
+  v / 2 ^ b * 2 ^ (b + 1) + N.b2n c * 2 ^ b + v mod 2 ^ b.
+
+Lemma max64_ones : max64 = N.ones 64.
+Proof. reflexivity. Qed.
+
+Lemma lxor_max64 m : m < W -> xor64 max64 m = max64 - m.
+Proof.
+  intros Hm. unfold xor64. rewrite max64_ones.
+  assert (E : N.lxor (N.ones 64) m = N.ldiff (N.ones 64) m).
+  { apply N.bits_inj. intros j. rewrite N.lxor_spec, N.ldiff_spec.
+    destruct (N.lt_ge_cases j 64) as [Hj|Hj].
+    - rewrite N.ones_spec_low by assumption. reflexivity.
+    - rewrite N.ones_spec_high by assumption. rewrite (testbit_small m 64 j Hm Hj). reflexivity. }
+  rewrite E. symmetry. apply N.sub_nocarry_ldiff.
+  apply N.bits_inj_0. intros j. rewrite N.ldiff_spec.
+  destruct (N.lt_ge_cases j 64) as [Hj|Hj].
+  - rewrite N.ones_spec_low by assumption. apply Bool.andb_false_r.
+  - rewrite (testbit_small m 64 j Hm Hj). reflexivity.
+Qed.
+
+Lemma not64_lxor_max64 m : m < W -> not64 (xor64 max64 m) = m.
+Proof. intros Hm. rewrite lxor_max64 by assumption. unfold not64, max64 in *. lia. Qed.
+
+Lemma sub64_shl1 b : b <= 63 -> sub64 (shl 1 b) 1 = 2 ^ b - 1.
+Proof.
+  intros Hb. rewrite shl_1 by assumption.
+  apply sub64_small; [apply pow2_ge1|apply pow2_lt_W; assumption].
+Qed.
+
+Lemma lor_high_low q m b : m < 2 ^ b -> N.lor (q * 2 ^ b) m = q * 2 ^ b + m.
+Proof.
+  intros Hm. rewrite N.lor_comm, <- N.shiftl_mul_pow2, lor_shiftl_add by assumption.
+  rewrite N.shiftl_mul_pow2. lia.
+Qed.
+
+Lemma removeBit_spec v b : v < W -> b <= 63 -> removeBit v b = rmbit v b.
+Proof.
+  intros Hv Hb. unfold removeBit, rmbit. cbv zeta. fold (mask b).
+  rewrite sub64_shl1 by assumption.
+  assert (Hm2 : 2 ^ b - 1 < W) by (pose proof (pow2_lt_W b Hb); lia).
+  rewrite not64_lxor_max64 by assumption.
+  assert (Hm : mask b < W).
+  { rewrite mask_spec by assumption. assert (2 ^ (b + 1) <= W) by (rewrite W_eq; apply pow2_le; lia).
+    pose proof (pow2_pos (b + 1)). lia. }
+  rewrite lxor_max64 by assumption. rewrite mask_spec by assumption.
+  assert (Hle : 2 ^ (b + 1) <= 2 ^ 64) by (apply pow2_le; lia).
+  replace (max64 - (2 ^ (b + 1) - 1)) with (2 ^ 64 - 2 ^ (b + 1))
+    by (unfold max64; rewrite W_eq; pose proof (pow2_pos (b + 1)); lia).
+  unfold and64. rewrite land_highmask by (try (rewrite <- W_eq; assumption); lia).
+  rewrite land_ones_mod.
+  set (q := v / 2 ^ (b + 1)).
+  assert (Es : shr (q * 2 ^ (b + 1)) 1 = q * 2 ^ b).
+  { unfold shr. rewrite N.shiftr_div_pow2, N.pow_1_r, pow2_S.
+    replace (q * (2 * 2 ^ b)) with (q * 2 ^ b * 2) by lia. apply N.div_mul. lia. }
+  rewrite Es. unfold or64. apply lor_high_low. apply N.mod_upper_bound, pow2_nz.
+Qed.
+
+Lemma addBit_spec v b c : v < 2 ^ 63 -> b <= 63 -> addBit v b c = insbit v b c.
+Proof.
+  intros Hv Hb. unfold addBit, insbit. cbv zeta.
+  rewrite sub64_shl1 by assumption.
+  assert (Hm2 : 2 ^ b - 1 < W) by (pose proof (pow2_lt_W b Hb); lia).
+  rewrite not64_lxor_max64 by assumption. rewrite lxor_max64 by assumption.
+  assert (Hle : 2 ^ b <= 2 ^ 64) by (apply pow2_le; lia).
+  replace (max64 - (2 ^ b - 1)) with (2 ^ 64 - 2 ^ b)
+    by (unfold max64; rewrite W_eq; pose proof (pow2_pos b); lia).
+  assert (H63 : 2 ^ 63 < 2 ^ 64) by (apply pow2_lt; lia).
+  unfold and64. rewrite land_highmask by lia. rewrite land_ones_mod.
+  set (q := v / 2 ^ b). set (m := v mod 2 ^ b).
+  assert (Hm : m < 2 ^ b) by (apply N.mod_upper_bound, pow2_nz).
+  assert (Hq : q * 2 ^ b <= v).
+  { rewrite N.mul_comm. apply N.mul_div_le, pow2_nz. }
+  assert (Eu : shl (q * 2 ^ b) 1 = 2 * q * 2 ^ b).
+  { rewrite shl_small; [rewrite N.pow_1_r; lia|lia|]. rewrite N.pow_1_r, W_eq.
+    replace 64 with (63 + 1) by reflexivity. rewrite pow2_S. lia. }
+  rewrite Eu. rewrite shl_1 by assumption. unfold or64.
+  rewrite lor_high_low by assumption.
+  rewrite pow2_S.
+  destruct c; cbn [N.b2n]; [|lia].
+  rewrite <- lor_high_low by assumption.
+  rewrite <- N.lor_assoc, (N.lor_comm m), N.lor_assoc.
+  replace (N.lor (2 * q * 2 ^ b) (2 ^ b)) with ((2 * q + 1) * 2 ^ b).
+  - rewrite lor_high_low by assumption. lia.
+  - replace (2 ^ b) with (1 * 2 ^ b) at 3 by lia.
+    rewrite <- !N.shiftl_mul_pow2, <- N.shiftl_lor. f_equal.
+    rewrite lor_1, N.even_mul. reflexivity.
+Qed.
+
+Lemma rmbit_add_high o G b : rmbit (o + G * 2 ^ (b + 1)) b = rmbit o b + G * 2 ^ b.
+Proof.
+  unfold rmbit. rewrite N.div_add by apply pow2_nz.
+  replace (o + G * 2 ^ (b + 1)) with (o + 2 * G * 2 ^ b) by (rewrite pow2_S; lia).
+  rewrite N.mod_add by apply pow2_nz. lia.
+Qed.
+
+Lemma insbit_add_high o G b c : insbit (o + G * 2 ^ b) b c = insbit o b c + G * 2 ^ (b + 1).
+Proof.
+  unfold insbit. rewrite N.div_add, N.mod_add by apply pow2_nz. lia.
+Qed.
+
+Lemma rmbit_lt o n b : b < n -> o < 2 ^ n -> rmbit o b < 2 ^ (n - 1).
+Proof.
+  intros Hb Ho. unfold rmbit.
+  assert (En : n - (b + 1) + b = n - 1) by lia.
+  assert (Hm : o mod 2 ^ b < 2 ^ b) by (apply N.mod_upper_bound, pow2_nz).
+  assert (Hq : o / 2 ^ (b + 1) < 2 ^ (n - (b + 1))).
+  { apply N.div_lt_upper_bound; [apply pow2_nz|]. rewrite <- N.pow_add_r.
+    replace (b + 1 + (n - (b + 1))) with n by lia. assumption. }
+  set (q := o / 2 ^ (b + 1)) in *.
+  assert (Hq' : (q + 1) * 2 ^ b <= 2 ^ (n - (b + 1)) * 2 ^ b) by (apply N.mul_le_mono_r; lia).
+  rewrite <- N.pow_add_r, En in Hq'.
+  lia.
+Qed.
+
+Lemma insbit_lt o n b c : b <= n -> o < 2 ^ n -> insbit o b c < 2 ^ (n + 1).
+Proof.
+  intros Hb Ho. unfold insbit.
+  assert (En : n - b + (b + 1) = n + 1) by lia.
+  assert (Hm : o mod 2 ^ b < 2 ^ b) by (apply N.mod_upper_bound, pow2_nz).
+  assert (Hq : o / 2 ^ b < 2 ^ (n - b)).
+  { apply N.div_lt_upper_bound; [apply pow2_nz|]. rewrite <- N.pow_add_r.
+    replace (b + (n - b)) with n by lia. assumption. }
+  set (q := o / 2 ^ b) in *.
+  assert (Hq' : (q + 1) * 2 ^ (b + 1) <= 2 ^ (n - b) * 2 ^ (b + 1)) by (apply N.mul_le_mono_r; lia).
+  rewrite <- N.pow_add_r, En in Hq'.
+  rewrite pow2_S in *. assert (N.b2n c <= 1) by (destruct c; cbn; lia).
+  assert (N.b2n c * 2 ^ b <= 2 ^ b) by (destruct c; cbn [N.b2n]; lia).
+  lia.
+Qed.
+
+Lemma insbit_rmbit_arith o q m t P r1 :
+  o = 2 * P * q + r1 -> r1 = m + P * t -> q * (2 * P) + t * P + m = o.
+Proof. intros -> ->. lia. Qed.
+
+Lemma insbit_rmbit o b : insbit (rmbit o b) b (N.testbit o b) = o.
+Proof.
+  unfold insbit, rmbit.
+  assert (Hm : o mod 2 ^ b < 2 ^ b) by (apply N.mod_upper_bound, pow2_nz).
+  pose proof (N.div_mod o (2 ^ (b + 1)) (pow2_nz _)) as E.
+  assert (E2 : o mod 2 ^ (b + 1) = o mod 2 ^ b + 2 ^ b * ((o / 2 ^ b) mod 2)).
+  { rewrite pow2_S, (N.mul_comm 2). apply N.mod_mul_r; [apply pow2_nz|lia]. }
+  rewrite N.testbit_spec'. rewrite pow2_S in E, E2 |- *.
+  set (q := o / (2 * 2 ^ b)) in *. set (m := o mod 2 ^ b) in *.
+  replace ((q * 2 ^ b + m) / 2 ^ b) with q.
+  2:{ rewrite N.div_add_l by apply pow2_nz. rewrite N.div_small by assumption. lia. }
+  replace ((q * 2 ^ b + m) mod 2 ^ b) with m.
+  2:{ rewrite N.add_comm, N.mod_add by apply pow2_nz. symmetry. apply N.mod_small; assumption. }
+  exact (insbit_rmbit_arith o q m _ (2 ^ b) _ E E2).
+Qed.
+
+Lemma ones_mul r a : N.ones r * 2 ^ a = 2 ^ (r + a) - 2 ^ a.
+Proof. rewrite N.ones_equiv, <- N.sub_1_r, N.mul_sub_distr_r, N.pow_add_r. lia. Qed.
+
+Theorem calcNextPosition_gpos h r o del rd : h <= 63 -> r <= rd -> rd < h -> o < 2 ^ (h - r) ->
+  DetectRow del h = rd ->
+  calcNextPosition (gpos h r o) del h = Some (gpos h (r + 1) (rmbit o (rd - r))).
+Proof.
+  intros Hh Hrd Hrdh Ho Hdel. assert (Hr : r <= h) by lia.
+  unfold calcNextPosition. cbv zeta. rewrite Hdel, DetectRow_gpos by assumption.
+  destruct (N.ltb_spec rd r) as [H0|_]; [lia|]. f_equal.
+  rewrite add8_small by lia. rewrite !sub8_small by lia.
+  rewrite removeBit_spec by (try lia; apply gpos_lt_W; assumption).
+  rewrite (shl_1 (r + 1)) by lia.
+  assert (Eh : 2 ^ (r + 1) * 2 ^ (h - (r + 1)) = 2 ^ h) by (rewrite <- N.pow_add_r; f_equal; lia).
+  rewrite shl_small; [|lia|rewrite Eh; apply pow2_lt_W; assumption]. rewrite Eh.
+  set (b := rd - r).
+  assert (Eg : gpos h r o = o + N.ones r * 2 ^ (h - r - b) * 2 ^ (b + 1)).
+  { unfold gpos. rewrite gstart_ones by assumption. rewrite <- N.mul_assoc, <- N.pow_add_r.
+    replace (h - r - b + (b + 1)) with (h + 1 - r) by lia. lia. }
+  rewrite Eg, rmbit_add_high. rewrite <- N.mul_assoc, <- N.pow_add_r.
+  replace (h - r - b + b) with (h - r) by lia.
+  pose proof (rmbit_lt o (h - r) b ltac:(lia) Ho) as Hlt.
+  assert (Hle : 2 ^ (h - r - 1) <= 2 ^ (h - r)) by (apply pow2_le; lia).
+  rewrite ones_mul. replace (r + (h - r)) with h by lia.
+  assert (Hhr : 2 ^ (h - r) <= 2 ^ h) by (apply pow2_le; lia).
+  unfold or64. rewrite N.lor_comm, lor_pow2_add by lia.
+  unfold gpos, gstart. replace (h + 1 - (r + 1)) with (h - r) by lia. rewrite pow2_S. lia.
+Qed.
+
+Lemma land_clear_bit x h : h <= 63 -> x < 2 ^ h -> N.land (x + 2 ^ h) (max64 - 2 ^ h) = x.
+Proof.
+  intros Hh Hx. rewrite <- lor_pow2_add by assumption.
+  rewrite <- lxor_max64 by (apply pow2_lt_W; assumption). unfold xor64. rewrite max64_ones.
+  apply N.bits_inj. intros j.
+  rewrite N.land_spec, N.lor_spec, N.lxor_spec, N.pow2_bits_eqb.
+  destruct (N.eqb_spec h j) as [<-|Hne].
+  - rewrite (testbit_small x h h Hx) by lia. rewrite N.ones_spec_low by lia. reflexivity.
+  - rewrite Bool.orb_false_r, Bool.xorb_false_r.
+    destruct (N.lt_ge_cases j 64) as [Hj|Hj].
+    + rewrite N.ones_spec_low by assumption. apply Bool.andb_true_r.
+    + rewrite (testbit_small x h j Hx) by lia. reflexivity.
+Qed.
+
+Theorem calcPrevPosition_gpos h r o del rd : h <= 63 -> r <= rd -> rd < h -> o < 2 ^ (h - r - 1) ->
+  DetectRow del h = rd ->
+  calcPrevPosition (gpos h (r + 1) o) del h = gpos h r (insbit o (rd - r) (isLeftNiece del)).
+Proof.
+  intros Hh Hrd Hrdh Ho Hdel.
+  replace (h - r - 1) with (h - (r + 1)) in Ho by lia.
+  unfold calcPrevPosition. cbv zeta. rewrite Hdel, DetectRow_gpos by (try assumption; lia).
+  rewrite (sub8_small (r + 1) 1), (sub8_small h (r + 1)), sub8_small by lia.
+  replace (r + 1 - 1) with r by lia.
+  rewrite (shl_1 (r + 1)) by lia.
+  assert (Eh : 2 ^ (r + 1) * 2 ^ (h - (r + 1)) = 2 ^ h) by (rewrite <- N.pow_add_r; f_equal; lia).
+  rewrite shl_small; [|lia|rewrite Eh; apply pow2_lt_W; assumption]. rewrite Eh.
+  set (b := rd - r). unfold not64.
+  assert (Hhr : 2 ^ (h - r) <= 2 ^ h) by (apply pow2_le; lia).
+  assert (Hhr1 : 2 ^ (h - (r + 1)) <= 2 ^ (h - r)) by (apply pow2_le; lia).
+  assert (Eg : gpos h (r + 1) o = (o + N.ones r * 2 ^ (h - r)) + 2 ^ h).
+  { unfold gpos, gstart. rewrite ones_mul. replace (r + (h - r)) with h by lia.
+    replace (h + 1 - (r + 1)) with (h - r) by lia. rewrite pow2_S. lia. }
+  assert (Hlow : o + N.ones r * 2 ^ (h - r) < 2 ^ h).
+  { rewrite ones_mul. replace (r + (h - r)) with h by lia. lia. }
+  rewrite Eg. unfold and64. rewrite land_clear_bit by assumption.
+  assert (H63 : 2 ^ h <= 2 ^ 63) by (apply pow2_le; lia).
+  rewrite addBit_spec by lia.
+  replace (N.ones r * 2 ^ (h - r)) with (N.ones r * 2 ^ (h - r - b) * 2 ^ b).
+  2:{ rewrite <- N.mul_assoc, <- N.pow_add_r. f_equal. f_equal. lia. }
+  rewrite insbit_add_high. rewrite <- N.mul_assoc, <- N.pow_add_r.
+  replace (h - r - b + (b + 1)) with (h + 1 - r) by lia.
+  unfold gpos. rewrite gstart_ones by lia. lia.
+Qed.
+
+(** [calcPrevPosition] undoes [calcNextPosition] when the position lies below the sibling of [del]
+    (its offset bit at the row of [del] is the opposite of [del]'s, i.e. set iff [del] is a left niece). *)
+Theorem calcPrev_calcNext h r o del rd q : h <= 63 -> r <= rd -> rd < h -> o < 2 ^ (h - r) ->
+  DetectRow del h = rd -> N.testbit o (rd - r) = isLeftNiece del ->
+  calcNextPosition (gpos h r o) del h = Some q ->
+  calcPrevPosition q del h = gpos h r o.
+Proof.
+  intros Hh Hrd Hrdh Ho Hdel Hbit Hnext.
+  rewrite (calcNextPosition_gpos h r o del rd) in Hnext by assumption.
+  injection Hnext as <-.
+  pose proof (rmbit_lt o (h - r) (rd - r) ltac:(lia) Ho) as Hlt.
+  rewrite (calcPrevPosition_gpos h r _ del rd) by assumption.
+  rewrite <- Hbit, insbit_rmbit. reflexivity.
+Qed.
+
+Example calcNextPosition_gpos_ex :
+  calcNextPosition (gpos 4 1 5) (gpos 4 2 1) 4 = Some (gpos 4 (1 + 1) (rmbit 5 (2 - 1))).
+Proof. reflexivity. Qed.
+Example calcPrev_calcNext_ex :
+  N.testbit 2 (2 - 1) = isLeftNiece (gpos 4 2 2) /\
+  calcNextPosition (gpos 4 1 2) (gpos 4 2 2) 4 = Some 24 /\ calcPrevPosition 24 (gpos 4 2 2) 4 = gpos 4 1 2.
+Proof. repeat split. Qed.
+
+(** * Further instances (every theorem's hypotheses are satisfiable) *)
+Example gpos_inj_ex : gpos 3 1 2 = gpos 3 1 2 -> 1 = 1 /\ 2 = 2.
+Proof. intros H. exact (gpos_inj 3 1 2 1 2 ltac:(vm_compute; discriminate) eq_refl ltac:(vm_compute; discriminate) eq_refl H). Qed.
+Example rightSib_gpos_ex : rightSib (gpos 3 1 2) = gpos 3 1 (N.lor 2 1). Proof. reflexivity. Qed.
+Example isLeftNiece_gpos_ex : isLeftNiece (gpos 3 1 2) = N.even 2. Proof. reflexivity. Qed.
+Example Parent_RightChild_ex : Parent (RightChild (gpos 3 (1 + 1) 1) 3) 3 = gpos 3 (1 + 1) 1.
+Proof. reflexivity. Qed.
+Example LeftChild_Parent_ex : LeftChild (Parent (gpos 3 1 3) 3) 3 = leftSib (gpos 3 1 3).
+Proof. reflexivity. Qed.
+Example DetectRow_Parent_ex : DetectRow (Parent (gpos 3 1 3) 3) 3 = DetectRow (gpos 3 1 3) 3 + 1.
+Proof. reflexivity. Qed.
+Example root_coord_valid_ex : N.testbit 7 1 = true /\ 1 <= 3 /\ 2 * (7 / 2 ^ (1 + 1)) < 2 ^ (3 - 1).
+Proof. split; [reflexivity|split; [vm_compute; discriminate|reflexivity]]. Qed.
+Example calcPrevPosition_gpos_ex :
+  calcPrevPosition (gpos 4 (1 + 1) 1) (gpos 4 2 2) 4 = gpos 4 1 (insbit 1 (2 - 1) (isLeftNiece (gpos 4 2 2))).
+Proof. reflexivity. Qed.
+Example removeBit_spec_ex : removeBit 181 2 = rmbit 181 2. Proof. reflexivity. Qed.
+Example addBit_spec_ex : addBit 9 2 true = insbit 9 2 true /\ addBit 9 2 true = 21. Proof. split; reflexivity. Qed.
